@@ -256,3 +256,79 @@ Qed.
 Lemma ev_call_sound : forall f E cp c vs ca r ca', cache_ok E ca -> ev_call f E cp c vs ca = (r, ca') ->
   cache_ok E ca' /\ (r <> OutOfFuel -> exists f', sp_call f' E cp c vs = r).
 Proof. intros f. apply (ev_sound_all f). Qed.
+
+(** ** completeness: with the fuel the specification needs, the memoising
+    evaluator gives the same answer (a cache hit can only save fuel) *)
+Definition compl_e (f : nat) : Prop :=
+  forall E cp locs ca e r, cache_ok E ca -> sp f E cp locs e = r -> r <> OutOfFuel ->
+  exists ca', ev f E cp locs ca e = (r, ca').
+Definition compl_a (f : nat) : Prop :=
+  forall E cp locs ca es r, cache_ok E ca -> sp_args f E cp locs es = r -> r <> OutOfFuel ->
+  exists ca', ev_args f E cp locs ca es = (r, ca').
+Definition compl_c (f : nat) : Prop :=
+  forall E cp c vs ca r, cache_ok E ca -> sp_call f E cp c vs = r -> r <> OutOfFuel ->
+  exists ca', ev_call f E cp c vs ca = (r, ca').
+
+Lemma ev_sound_cache : forall f E cp locs ca e r ca', cache_ok E ca -> ev f E cp locs ca e = (r, ca') -> cache_ok E ca'.
+Proof. intros f E cp locs ca e r ca' H H0. exact (proj1 (proj1 (ev_sound_all f) _ _ _ _ _ _ _ H H0)). Qed.
+Lemma ev_args_sound_cache : forall f E cp locs ca es r ca', cache_ok E ca -> ev_args f E cp locs ca es = (r, ca') -> cache_ok E ca'.
+Proof. intros f E cp locs ca es r ca' H H0. exact (proj1 (proj1 (proj2 (ev_sound_all f)) _ _ _ _ _ _ _ H H0)). Qed.
+
+Lemma ev_complete_all : forall f, compl_e f /\ compl_a f /\ compl_c f.
+Proof.
+  induction f as [|f (IHe & IHa & IHc)].
+  - repeat split; intros until r; simpl; intros _ <- Hr; congruence.
+  - repeat split.
+    + intros E cp locs ca e r Hok H Hr. destruct e; simpl in *.
+      * subst. eauto.
+      * subst. eauto.
+      * destruct (sp f E cp locs e1) as [va| |] eqn:E1.
+        -- destruct (IHe _ _ _ ca _ _ Hok E1 ltac:(discriminate)) as [c1 X1]. rewrite X1.
+           pose proof (ev_sound_cache _ _ _ _ _ _ _ _ Hok X1) as Hc1.
+           destruct (sp f E cp locs e2) as [vb| |] eqn:E2.
+           ++ destruct (IHe _ _ _ c1 _ _ Hc1 E2 ltac:(discriminate)) as [c2 X2]. rewrite X2. subst. eauto.
+           ++ destruct (IHe _ _ _ c1 _ _ Hc1 E2 ltac:(discriminate)) as [c2 X2]. rewrite X2. subst. eauto.
+           ++ congruence.
+        -- destruct (IHe _ _ _ ca _ _ Hok E1 ltac:(discriminate)) as [c1 X1]. rewrite X1. subst. eauto.
+        -- congruence.
+      * destruct (sp f E cp locs e1) as [vc| |] eqn:E1.
+        -- destruct (IHe _ _ _ ca _ _ Hok E1 ltac:(discriminate)) as [c1 X1]. rewrite X1.
+           pose proof (ev_sound_cache _ _ _ _ _ _ _ _ Hok X1) as Hc1.
+           destruct (0 <? vc)%Z; eapply IHe; eauto.
+        -- destruct (IHe _ _ _ ca _ _ Hok E1 ltac:(discriminate)) as [c1 X1]. rewrite X1. subst. eauto.
+        -- congruence.
+      * destruct (sp_args f E cp locs args) as [vs| |] eqn:E1.
+        -- destruct (IHa _ _ _ ca _ _ Hok E1 ltac:(discriminate)) as [c1 X1]. rewrite X1.
+           pose proof (ev_args_sound_cache _ _ _ _ _ _ _ _ Hok X1) as Hc1.
+           destruct (amem c locs); [subst; eauto|]. eapply IHc; eauto.
+        -- destruct (IHa _ _ _ ca _ _ Hok E1 ltac:(discriminate)) as [c1 X1]. rewrite X1. subst. simpl. eauto.
+        -- simpl in H. congruence.
+      * destruct (sp_args f E cp locs args) as [vs| |] eqn:E1.
+        -- destruct (IHa _ _ _ ca _ _ Hok E1 ltac:(discriminate)) as [c1 X1]. rewrite X1.
+           pose proof (ev_args_sound_cache _ _ _ _ _ _ _ _ Hok X1) as Hc1.
+           destruct (child_ok E cp locs X); [|subst; eauto]. eapply IHc; eauto.
+        -- destruct (IHa _ _ _ ca _ _ Hok E1 ltac:(discriminate)) as [c1 X1]. rewrite X1. subst. simpl. eauto.
+        -- simpl in H. congruence.
+    + intros E cp locs ca es r Hok H Hr. destruct es as [|e rest]; simpl in *; [subst; eauto|].
+      destruct (sp f E cp locs e) as [v| |] eqn:E1.
+      * destruct (IHe _ _ _ ca _ _ Hok E1 ltac:(discriminate)) as [c1 X1]. rewrite X1.
+        pose proof (ev_sound_cache _ _ _ _ _ _ _ _ Hok X1) as Hc1.
+        destruct (sp_args f E cp locs rest) as [vs| |] eqn:E2.
+        -- destruct (IHa _ _ _ c1 _ _ Hc1 E2 ltac:(discriminate)) as [c2 X2]. rewrite X2. subst. eauto.
+        -- destruct (IHa _ _ _ c1 _ _ Hc1 E2 ltac:(discriminate)) as [c2 X2]. rewrite X2. subst. eauto.
+        -- congruence.
+      * destruct (IHe _ _ _ ca _ _ Hok E1 ltac:(discriminate)) as [c1 X1]. rewrite X1. subst. simpl. eauto.
+      * simpl in H. congruence.
+    + intros E cp c vs ca r Hok H Hr. pose proof H as Hfull. simpl in H. simpl.
+      destruct (dlookup cp (ec_snap E)) as [n|] eqn:En; [|subst; eauto].
+      destruct (alookup c (sn_cells n)) as [d|] eqn:Ec; [|subst; eauto].
+      destruct (negb (Nat.eqb (List.length (cd_params d)) (List.length vs))) eqn:Ear; [subst; eauto|].
+      destruct (clookup (cp, c, vs) ca) as [v|] eqn:Eh.
+      * destruct (Hok _ _ _ _ Eh) as [f0 H0].
+        rewrite (sp_call_det _ _ _ _ _ _ _ _ Hfull H0 Hr ltac:(discriminate)). eauto.
+      * destruct (IHe _ _ _ ca _ _ Hok H Hr) as [c1 X1]. rewrite X1. destruct r; eauto.
+Qed.
+
+Lemma ev_call_complete : forall f E cp c vs ca r, cache_ok E ca -> sp_call f E cp c vs = r -> r <> OutOfFuel ->
+  exists ca', ev_call f E cp c vs ca = (r, ca').
+Proof. intros f. apply (ev_complete_all f). Qed.
